@@ -62,6 +62,7 @@ type c11Rec struct {
 	rejected string // a delivery of this run was refused because of this entity
 	killed   bool   // a kill of this run has returned: the run's context is cancelled
 	killedAt time.Time
+	readSince bool // the run has read from its source since its last delivery (or has not delivered yet)
 }
 
 func (r *c11Run) ev(format string, args ...any) {
@@ -368,6 +369,16 @@ func RunC11Scenario(sc *Scenario) (vd *Verdict) {
 }
 
 func (r *c11Run) installHooks() {
+	hooks.onPointAlways = func(name string) {
+		if name == "ProcessChangesRaw.begin" || name == "MapEntitiesRaw.begin" {
+			gid := curGid()
+			r.mu.Lock()
+			if rec := r.runOf[gid]; rec != nil {
+				rec.readSince = true
+			}
+			r.mu.Unlock()
+		}
+	}
 	hooks.onFaultOn = func(owner any, name string, subject any, hit int64) error {
 		// anything that calls into the hub (and may park at a hook there) happens before the harness lock is taken
 		var sinkIDs []string
@@ -388,7 +399,7 @@ func (r *c11Run) installHooks() {
 				r.fail(viol("C11", "overlap", "two-runs-of-one-job", "a run of job %s started while another run of the same job holds its slot", id))
 			}
 			r.lastActivity = time.Now()
-			r.runOf[gid] = &c11Rec{id: id, start: time.Now()}
+			r.runOf[gid] = &c11Rec{id: id, start: time.Now(), readSince: false}
 			delete(r.tokByRun, gid)
 			r.active[id]++
 			r.started[id]++
@@ -434,7 +445,12 @@ func (r *c11Run) installHooks() {
 				// run has returned was not stopped by it
 				// (with a transform the hook of a batch start fires in a worker goroutine: only jobs that never have a
 				// transform in this scenario are judged)
-				starts := name == "sink.dataset" && !r.everTransform[rec.id]
+				// (a sink wrapped by a log handler is called several times for one batch when it splits it: a delivery starts
+				// a batch only if the run has read from its source since the delivery before)
+				starts := name == "sink.dataset" && !r.everTransform[rec.id] && rec.readSince
+				if name == "sink.dataset" {
+					rec.readSince = false
+				}
 				if starts && rec.killed {
 					r.fail(viol("C11", "kill", "kill-ignored", "job %s was killed while its run (started %s) held its slot; after the kill had returned the run went on and handed another batch to its %s", rec.id, rec.start.Format(time.RFC3339Nano), strings.SplitN(name, ".", 2)[0]))
 				}
